@@ -490,3 +490,34 @@ pub fn settings_from_json(v: &serde_json::Value) -> NormalizerSettings {
         enable_fallback: v["fallback"].as_bool().unwrap_or(true),
     }
 }
+
+/// legacy single-byte text (corpus texts with enough non-ASCII letters, encoded in one code page), repeated up to `target` bytes
+pub fn legacy_text(rng: &mut Rng, corpus: &Corpus, target: usize) -> (Vec<u8>, &'static str) {
+    let enc = *rng.pick(&["windows-1251", "windows-1252", "iso-8859-7", "koi8-r", "windows-1250", "iso-8859-2"]);
+    legacy_text_in(rng, corpus, target, enc)
+}
+
+pub fn legacy_text_in(rng: &mut Rng, corpus: &Corpus, target: usize, enc: &'static str) -> (Vec<u8>, &'static str) {
+    let mut unit: Vec<u8> = vec![];
+    for _ in 0..40 {
+        let t = rng.pick(&corpus.texts);
+        if let Some(b) = encode_text(t, enc) {
+            if b.iter().filter(|x| **x >= 0x80).count() * 5 > b.len() {
+                unit.extend_from_slice(&b);
+                unit.push(b'\n');
+            }
+        }
+        if unit.len() > 20_000 {
+            break;
+        }
+    }
+    if unit.is_empty() {
+        unit = b"plain words only \xe9\xe8 ".to_vec();
+    }
+    let mut b = Vec::with_capacity(target + unit.len());
+    while b.len() < target {
+        b.extend_from_slice(&unit);
+    }
+    b.truncate(target);
+    (b, enc)
+}
